@@ -7,7 +7,8 @@ TRUSTED = [
     "time.ParseDuration runs in front of the model (its int64 result is the model's input; the theorem quantifies over all integers)",
     "uint64(float64) conversion modelled as truncation + two's complement (amd64); float rounding of Duration.Seconds() is exact for |d| <= 24h",
     "harness-compiled constants (Consts.v) — compiled against the current tree by the Go compiler",
-    "cloud-role template lifetime (a literal inside makeCertificateTemplate) is observed through the real endpoint behind a fake STS, not regenerated",
+    "cloud-role template lifetime: probed (NotAfter-NotBefore of the template the library hands to its certificate generator, library defaults) and observed through the real endpoint with the issuer the loader built, behind a fake STS (http.DefaultClient transport)",
+    "configuration knobs are found by reflection over AppConfigFile (numeric, duration, lifetime-named strings); a knob of another kind (a nested list of structs, a pointer) is not varied",
 ]
 
 def corr(ctx, res, name, label):
@@ -18,10 +19,20 @@ def corr(ctx, res, name, label):
     ctx.obligations.append(("corr:" + label, False, "mismatch indices %s" % (mism or "?")[:200]))
     return False
 
+def idx_line(ctx, mism):
+    m = re.search(r"\[(\d+)", mism or "")
+    first = None
+    if m:
+        for line in open(os.path.join(ctx.work, "CasesC03.idx")):
+            if line.startswith(m.group(1) + "\t"):
+                first = line.strip()
+    return {"first_mismatch": first, "indices": (mism or "")[:400]}
+
 def run(ctx):
     ctx.audit("Props.C03", ["c03_ssh_bound", "c03_x509_bound", "c03_too_long_refused",
                             "c03_nonpositive_refused", "c03_old_refuted",
-                            "c03_upgrade_keeps_auth_instant", "c03_bound_after_upgrades"])
+                            "c03_upgrade_keeps_auth_instant", "c03_bound_after_upgrades",
+                            "c03_effective_window", "c03_config_independent", "c03_fixed_paths_ignore_request"])
     gen = ctx.extract()
     ok, result, log = ctx.go_harness("cmd/keymasterd", "TestVerif_C03",
                                      ["kmd/common.go", "kmd/creds.go", "kmd/consts.go", "kmd/c03.go",
@@ -31,7 +42,7 @@ def run(ctx):
         if rc != 0:
             ctx.broken.append(("obligation", "gen:Consts.v", out[-1500:]))
         else:
-            ctx.gen_obligations("Obl_C03.v", ["c03_cap_is_24h", "c03_role_le_45d", "c03_24h"])
+            ctx.gen_obligations("Obl_C03.v", ["c03_cap_is_24h", "c03_role_le_45d", "c03_aws_le_24h", "c03_24h", "c03_every_path_every_config"])
             res = ctx.eval_cases(os.path.join(ctx.work, "CasesC03.v"), "c03_validity_vs_model")
             if res is not None:
                 n = res.get("c03_ncases")
@@ -47,5 +58,7 @@ def run(ctx):
                     ctx.broken.append(("correspondence", "c03_aws_validity", res.get("c03_aws_mismatches")))
                 if not corr(ctx, res, "c03_role_mismatches", "role/refresh validity = maxRoleRequestingCertDuration"):
                     ctx.broken.append(("correspondence", "c03_role_validity", res.get("c03_role_mismatches")))
+                if not corr(ctx, res, "c03_config_mismatches", "validity window on every path under %s configurations (one reflected knob at an extreme value each) = model effective_window for that configuration" % res.get("c03_nconfigs")):
+                    ctx.broken.append(("correspondence", "c03_config_validity", idx_line(ctx, res.get("c03_config_mismatches"))))
     ctx.assumptions = ["clock readings are taken by the harness immediately before and after each request; the model must agree for some reading in that interval (+-1 s)"]
     return ctx.finish("bin/build-coq; coqc Audit/Obl_C03/CasesC03; go test -overlay TestVerif_C03", TRUSTED)
